@@ -451,6 +451,12 @@ func (c *PolyCtx) loadPoly1(ld *ssa.UnOp) Poly {
 			sep = fmt.Sprintf("@%d", c.id(ld))
 		}
 	}
+	// ... except when the one store that can reach the load dominates it: inside a loop every pass
+	// then goes through the store before the load, so all such loads of one pass read what that
+	// pass stored (a local struct assigned at the top of the loop body and read field by field)
+	if sep != "" && len(reach) == 1 && InstrDominates(reach[0], ld) {
+		sep = fmt.Sprintf("@s%d", c.id(reach[0].Val)+1000*c.id(reach[0].Addr))
+	}
 	return c.note(polySym(path+"{"+strings.Join(ids, ",")+"}"+sep), ld)
 }
 
